@@ -118,7 +118,18 @@ def c07_jobs(tier):
     return jobs
 
 
+def c11_jobs(tier):
+    return [J('detect', 'H_C11_single', [], stubs=['single'])]
+
+
 PROPS = {
+    'C11': {
+        'jobs': c11_jobs,
+        'bounds': {'quick': 'SingleDetect with a SYMBOLIC requested length over 0 <= numByte < 2^31 (one query family, no smaller bound), four stream contents',
+                   'thorough': 'same (complete over the length)'},
+        'outside': 'what PokerTestBytes computes for m = 2, 4, 8 (C01/C15): it is summarised as an uninterpreted function of (content, start, length, m); negative lengths; lengths >= 2^31',
+        'assumptions': ['io.ReadFull contract on a non-failing source: returns (len(buf), nil) having consumed len(buf) bytes (one Read; none for an empty buffer)', 'PokerTestBytes uninterpreted'],
+    },
     'C07': {
         'jobs': c07_jobs,
         'bounds': {'quick': 'FactoryDetect / PowerOnDetect / PeriodDetect at their real sizes (50/20/20 samples x 15/15/12 items, 125000/125000/2500-byte buffers): complete over all pass matrices and all Q matrices in [0,1]',
